@@ -119,7 +119,33 @@ def impl_gen(req):
                                                    interface_labels=labs, parent_name=parent)
     except Exception as e:
         return ["err", err_kind(e)]
-    return ["ok", canon_comp(cs, ns_id, ids, labs)]
+    out = canon_comp(cs, ns_id, ids, labs)
+    _poison(cs, labs)
+    return ["ok", out]
+
+
+def _poison(cs, labs):
+    """A generated component belongs to its caller: after it has been read, every mutable object hanging off it that the
+    library created (port capacities, library-made labels, the interface and service dictionaries) is changed in place.  If
+    the library shares any of them between components (a cached Capacities, a mutable default, a catalogue entry handed out
+    uncopied), a LATER generation in the same process no longer matches the catalogue and the comparison above reports it."""
+    try:
+        nsi = cs.network_service_info
+        if nsi is None:
+            return
+        for ns in list(nsi.network_services.values()):
+            for isl in list(ns.interface_info.interfaces.values()):
+                cap = isl.get_capacities()
+                if cap is not None:
+                    cap.bw, cap.unit = 7, 0
+                lab = isl.get_labels()
+                if lab is not None and not any(l is lab for l in (labs or [])):
+                    lab.local_name = "poisoned"
+                isl.set_name("poisoned-" + isl.get_name()[:40])
+            ns.interface_info.interfaces.clear()
+        nsi.network_services.clear()
+    except Exception:
+        pass
 
 
 def _uuidish(s):
